@@ -218,6 +218,7 @@ func (p *Program) LoadConsts() error {
 	for _, n := range names {
 		if bigSet[n] {
 			if vals[n] == "nil" {
+				p.Consts[n] = "nil" // a nil *big.Int (sema.IntType's bounds): recorded, it has no heap cell
 				continue
 			}
 			p.BigGlobals[n] = nextID
